@@ -3,6 +3,8 @@
 package main
 
 import (
+	"time"
+
 	"github.com/bluenviron/mediamtx/internal/conf"
 	"github.com/bluenviron/mediamtx/internal/defs"
 	"github.com/bluenviron/mediamtx/internal/zzverif/pmlib"
@@ -78,6 +80,66 @@ func recreateBody(c0, c1 *conf.Conf) func() {
 	}
 }
 
+// closeAfterBody: runOnDemand path, overridePublisher off. Reader R1 creates demand, publisher A (a client of its
+// own, not the command) attaches and serves it, R1 leaves, nobody reads for longer than runOnDemandCloseAfter;
+// then publisher B arrives. A has never been closed, so it is still the publisher: B must be refused.
+func closeAfterBody(c0 *conf.Conf) func() {
+	return func() {
+		pmlib.Audio = false
+		pmlib.Live = nil
+		pm := pmlib.New(c0, pmlib.AllowAll{}, false)
+		pmlib.Live = pm
+		desc, m, f := pmlib.NewDesc()
+		rdone := make(chan struct{})
+		vsched.Go(func() {
+			defer vsched.Close(rdone)
+			r := &pmlib.Rdr{ID: "R1"}
+			res, sr, err := pm.Read(r, "p", m, f)
+			if err != nil {
+				return
+			}
+			vsched.WaitQuiet() // served
+			res.Stream.RemoveReader(sr)
+			vsched.Log("detaching R1")
+			res.Path.RemoveReader(defs.PathRemoveReaderReq{Author: r})
+			vsched.Log("detached R1")
+		})
+		vsched.WaitQuiet() // R1 is on hold, the command has been started
+		a := &pmlib.Pub{ID: "A"}
+		resA, err := pm.Publish(a, "p", desc)
+		if err != nil {
+			vsched.Fail("HARNESS: publisher A refused: %v", err)
+			return
+		}
+		vsched.Recv(rdone)
+		vsched.Log("phase2")
+		vsched.Advance(25 * time.Second) // longer than the close delay: the on-demand session ends
+		var done []chan struct{}
+		task := func(fn func()) {
+			d := make(chan struct{})
+			done = append(done, d)
+			vsched.Go(func() { defer vsched.Close(d); fn() })
+		}
+		task(func() { pmlib.Write(resA.SubStream, m, f, 'A', 1) })
+		task(func() {
+			b := &pmlib.Pub{ID: "B"}
+			resB, err := pm.Publish(b, "p", desc)
+			if err != nil {
+				return
+			}
+			pmlib.Write(resB.SubStream, m, f, 'B', 1)
+		})
+		for _, d := range done {
+			vsched.Recv(d)
+		}
+		vsched.WaitIdle()
+		vsched.Log("settled %s", pmlib.SnapString(pm))
+		pm.Close()
+		vsched.Log("closed")
+		vsched.Log("end")
+	}
+}
+
 func main() {
 	noOver := pmlib.LoadConf("paths:\n  p:\n    overridePublisher: no\n")
 	over := pmlib.LoadConf("paths:\n  p:\n    overridePublisher: yes\n")
@@ -130,6 +192,10 @@ func main() {
 	}, &vexplore.Scenario{
 		Name: "recreate-path-vs-publishers", Desc: "same on a path without on-demand command",
 		Body: recreateBody(plain0, plain1), Check: pmlib.CheckPublishers(false), QuickBound: 2, ThoroughBound: 3, Horizon: 20000, Bg: bg,
+	})
+	scn = append(scn, &vexplore.Scenario{
+		Name: "ondemand-close-after-vs-second-publisher", Desc: "runOnDemand path, overridePublisher off: publisher A (not the command) serves R1, R1 leaves, the close delay expires; then A writes and B tries to publish: A was never closed and is still the publisher, B must be refused",
+		Body: closeAfterBody(od0), Check: pmlib.CheckPublishers(false), QuickBound: 2, ThoroughBound: 3, Horizon: 20000, Bg: bg,
 	})
 	scn = append(scn, &vexplore.Scenario{Name: "stream-level-replace", Desc: "stream level (SubStream.WriteUnit stale-substream guard): always-available stream, publisher A (2 writes) replaced by B (1 write) concurrently, reader attached",
 		Body: pmlib.ReplaceBody, Check: pmlib.CheckReplace, QuickBound: 2, ThoroughBound: 3, Horizon: 8000, Bg: bg})
